@@ -1,15 +1,13 @@
 (* Tree/NoPanicProofsCompat.v — C12: ArxmlFile::check_version_compatibility / set_version (Tree/Compat.v) never panic or run
-   out of fuel in a world with H2 (Tree/NoPanicProofsSerFile.v) that is TYPED (agent-c17's TypedU: every stored element type
-   has the datatype that the parent's stored type lists for the element's name in some version), on tables with agent-c17's
-   PairOK (the datatypes one parent lists for one name are equal or both leaves; true of the real tables, Tree/CompatReal.v).
-   The one `unwrap` of the walk reads the version mask in the STORED type with the index list that the RECALCULATED type
-   returned: typedness makes the two datatypes equal wherever the lookup finds something, so the index list is a path of the
-   stored type (Xml/TablesOk.v path_ok).  WITHOUT typedness the call panics — Tree/NoPanicProofsCompatEx.v (a move that
-   keeps the stored type), found on the implementation as well.  Every other lookup is total on checked types. *)
+   out of fuel in a world with H12 and FI (Tree/NoPanicProofsFiles.v) — for EVERY such world since the fix d9d0053 in
+   element.rs: the one `unwrap` of the walk reads the version mask in the RECALCULATED type with the index list that this
+   very type returned, so the index list is a path of that type (Xml/TablesOk.v path_ok, found_ok).
+   Before the fix the mask was read in the STORED type: the call panicked after a move / copy that keeps a stored type the
+   new parent does not list (finding C12-panic-check-compat-mixup, `avh panics mixup`; the state is Tree/NoPanicProofsCompatEx.v)
+   and the theorem needed agent-c17's TypedU and PairOK.  Every other lookup is total on checked types. *)
 From Coq Require Import Lia PeanoNat.
 From AV Require Import Base.Bytes Base.Outcome Hash.HashModel Spec.SpecOps Xml.TablesOk Tree.Heap Tree.Ops Tree.Script Tree.Inv.
-From AV Require Import Tree.InvProofsBase Tree.Compat Tree.CompatSpec Tree.CompatTyped Tree.CompatHist1 Tree.CompatProofs5
-  Tree.SortProofsReadyE Tree.OrdHist.
+From AV Require Import Tree.InvProofsBase Tree.Compat Tree.SortProofsReadyE Tree.OrdHist.
 From AV Require Import Tree.NoPanic Tree.NoPanicProofsBase Tree.NoPanicProofsDepth Tree.NoPanicProofsHist
   Tree.NoPanicProofsFiles Tree.NoPanicProofsSerFile.
 Open Scope string_scope.
@@ -20,12 +18,8 @@ Section CompatTotal.
 Variable T : tables.
 Variable tab_el tab_at tab_en : nametab.
 Hypothesis OK12 : tables_ok12 T = true.
-Hypothesis HP : PairOK T.
 Notation TOK := (ok12_tables T OK12) (only parsing).
 Notation H12 := (H12 T tab_el tab_at tab_en).
-
-Lemma rel_refl a : rel_ok T a a = true.
-Proof. unfold rel_ok. rewrite N.eqb_refl. reflexivity. Qed.
 
 Lemma attr_loop_ok self oldty newty target attrs : etype_ok T oldty -> etype_ok T newty ->
   exists r, attr_loop T self oldty newty target attrs = Val r.
@@ -43,47 +37,34 @@ Section World.
 Variable w : world.
 Variable f target : N.
 Hypothesis I : H12 w.
-Hypothesis TU : TypedU T w.
-
-(* what the walk knows about a node it reaches: its parent link leads to a node whose stored type lists it *)
-Definition reached (n : node) : Prop :=
-  match n_parent n with
-  | PElem p => exists pn, w_nodes w p = Some pn /\ okpair T (n_type pn) (n_name n) (n_type n)
-  | _ => True
-  end.
 
 Lemma node_ety i n : w_nodes w i = Some n -> etype_ok T (n_type n).
 Proof. destruct I as (_ & _ & _ & (E & _) & _). intros H. exact (proj1 (E i n H)). Qed.
 
-Lemma recalc_ok i n : w_nodes w i = Some n -> reached n ->
-  exists newty, recalc_element_type T w n target = Val newty /\ etype_ok T newty /\ rel_ok T (snd (n_type n)) (snd newty) = true.
+Lemma recalc_ok i n : w_nodes w i = Some n ->
+  exists newty, recalc_element_type T w n target = Val newty /\ etype_ok T newty.
 Proof.
-  intros Hn R. pose proof (node_ety i n Hn) as EO. unfold recalc_element_type, reached in *. destruct (n_parent n) as [|m|p] eqn:EP.
-  - exists (n_type n). split; [reflexivity|]. split; [exact EO|apply rel_refl].
-  - exists (n_type n). split; [reflexivity|]. split; [exact EO|apply rel_refl].
-  - destruct R as (pn & Hpn & (u & et0 & ixs0 & Hu & Hs)). unfold node_at. rewrite Hpn. cbn [unwrap bind].
-    destruct (find_sub_element_total T TOK (n_type pn) (n_name n) target (node_ety p pn Hpn)) as (r & Er & Fr). rewrite Er. cbn [bind].
-    destruct r as [[et ixs]|].
-    + exists et. split; [reflexivity|]. split; [exact (proj1 Fr)|]. rewrite <- Hs.
-      unfold find_sub_element in Hu, Er. exact (HP _ _ _ _ _ _ _ _ Hu Er).
-    + exists (n_type n). split; [reflexivity|]. split; [exact EO|apply rel_refl].
+  intros Hn. pose proof (node_ety i n Hn) as EO. unfold recalc_element_type. destruct (n_parent n) as [|m|p] eqn:EP; [eauto|eauto|].
+  pose proof (H12_PanicFree T tab_el tab_at tab_en w I) as [C _ _].
+  destruct (cl_node _ _ _ _ C i n Hn) as (_ & _ & _ & _ & Hp). rewrite EP in Hp.
+  destruct (w_nodes w p) as [pn|] eqn:Hpn; [|exfalso; apply (cl_alloc _ _ _ _ C p) in Hp; exact (Hp Hpn)].
+  unfold node_at. rewrite Hpn. cbn [unwrap bind].
+  destruct (find_sub_element_total T TOK (n_type pn) (n_name n) target (node_ety p pn Hpn)) as (r & Er & Fr). rewrite Er. cbn [bind].
+  destruct r as [[et ixs]|]; [exists et; split; [reflexivity|exact (proj1 Fr)]|eauto].
 Qed.
 
-Lemma sub_loop_ok rec oldty newty items : etype_ok T newty -> rel_ok T (snd oldty) (snd newty) = true ->
+Lemma sub_loop_ok rec oldty newty items : etype_ok T newty ->
   (forall c, In (CElem c) items -> (exists cn, w_nodes w c = Some cn) /\ exists r, rec c = Val r) ->
   exists r, sub_loop T rec w oldty newty f target items = Val r.
 Proof.
-  intros EN RL. induction items as [|[c|d] rest IH]; intros HK; cbn [sub_loop]; [eauto| |].
+  intros EN. induction items as [|[c|d] rest IH]; intros HK; cbn [sub_loop]; [eauto| |].
   - destruct IH as ((e2 & m2) & E2). { intros c0 H0. apply HK. right. exact H0. }
     destruct (HK c (or_introl eq_refl)) as ((cn & Hcn) & ((e1 & m1) & E1)).
     unfold node_at. rewrite Hcn. cbn [unwrap bind].
     destruct (is_empty (n_files cn) || set_mem f (n_files cn))%bool; [|eauto].
     destruct (find_sub_element_total T TOK newty (n_name cn) target EN) as (r1 & Er1 & F1). rewrite Er1. cbn [bind].
     destruct (find_sub_element_total T TOK newty (n_name cn) U32MAX EN) as (r2 & Er2 & F2). rewrite Er2. cbn [bind].
-    assert (M : forall et ixs ver, find_sub_element T newty (n_name cn) ver = Val (Some (et, ixs)) -> path_ok T (snd newty) ixs ->
-                exists m, get_sub_element_version_mask T newty ixs = Val (Some m)).
-    { intros et ixs ver Hf P. apply (get_sub_element_version_mask_ok T newty ixs). exact P. }
-    assert (K : forall ixs, (exists m, get_sub_element_version_mask T newty ixs = Val (Some m)) ->
+    assert (K : forall ixs, path_ok T (snd newty) ixs ->
                 exists r, (let* o := get_sub_element_version_mask T newty ixs in
                            let* vm := unwrap "check_version_compatibility: get_sub_element_version_mask(..).unwrap()" o in
                            if negb (compatible target vm)
@@ -91,40 +72,40 @@ Proof.
                            else let* '(e1, m1) := rec c in
                                 let* '(e2, m2) := sub_loop T rec w oldty newty f target rest in
                                 Val (e1 ++ e2, N.land (N.land vm m1) m2))%res = Val r).
-    { intros ixs (m & Em). rewrite Em. cbn [unwrap bind]. destruct (negb (compatible target m)).
+    { intros ixs P. destruct (get_sub_element_version_mask_ok T newty ixs P) as (m & Em). rewrite Em. cbn [unwrap bind].
+      destruct (negb (compatible target m)).
       - rewrite E2. cbn [bind]. eauto.
       - rewrite E1. cbn [bind]. rewrite E2. cbn [bind]. eauto. }
     destruct r1 as [[et1 ixs1]|].
-    + exact (K ixs1 (M et1 ixs1 target Er1 (proj2 F1))).
-    + destruct r2 as [[et2 ixs2]|]; [|eauto]. exact (K ixs2 (M et2 ixs2 U32MAX Er2 (proj2 F2))).
+    + exact (K ixs1 (proj2 F1)).
+    + destruct r2 as [[et2 ixs2]|]; [|eauto]. exact (K ixs2 (proj2 F2)).
   - apply IH. intros c0 H0. apply HK. right. exact H0.
 Qed.
 
-Lemma e_check_ok : forall fuel i n, hb w i fuel -> w_nodes w i = Some n -> reached n ->
+Lemma e_check_ok : forall fuel i n, hb w i fuel -> w_nodes w i = Some n ->
   exists r, e_check T fuel w i f target = Val r.
 Proof.
-  induction fuel as [|fl IH]; intros i n HB Hn R; [inversion HB|].
+  induction fuel as [|fl IH]; intros i n HB Hn; [inversion HB|].
   inversion HB as [i0 f0 HK]; subst. specialize (HK n).
   cbn [e_check]. unfold node_at. rewrite Hn. cbn [unwrap bind].
-  destruct (recalc_ok i n Hn R) as (newty & -> & EN & RL). cbn [bind].
+  destruct (recalc_ok i n Hn) as (newty & -> & EN). cbn [bind].
   destruct (attr_loop_ok i (n_type n) newty target (n_attrs n) (node_ety i n Hn) EN) as ((ea & ma) & ->). cbn [bind].
   destruct (chardata_spec_ok T TOK newty EN) as (cs & -> & _). cbn [bind].
   destruct (match cs with Some spec => text_loop i spec target (n_content n) | None => ([], U32MAX) end) as (et & mt).
-  destruct (sub_loop_ok (fun c => e_check T fl w c f target) (n_type n) newty (n_content n) EN RL) as ((es & ms) & ->); [|cbn [bind]; eauto].
+  destruct (sub_loop_ok (fun c => e_check T fl w c f target) (n_type n) newty (n_content n) EN) as ((es & ms) & ->); [|cbn [bind]; eauto].
   intros c Hc. pose proof I as (C & _).
   assert (L : lists w i c).
   { exists n. split; [exact Hn|]. unfold kids, elems. apply in_flat_map. exists (CElem c). split; [exact Hc|left; reflexivity]. }
   apply (c_up w C) in L as (cn & Hcn & Hp). split; [eauto|].
-  apply (IH c cn); [apply HK; [exact Hn|exact Hc]|exact Hcn|].
-  unfold reached. rewrite Hp. exists n. split; [exact Hn|]. exact (TU i n c cn Hn Hc Hcn).
+  apply (IH c cn); [apply HK; [exact Hn|exact Hc]|exact Hcn].
 Qed.
 
 End World.
 
-Theorem np_f_check w f target : H12 w -> FI w -> TypedU T w -> f < N.of_nat (List.length (w_files w)) ->
+Theorem np_f_check w f target : H12 w -> FI w -> f < N.of_nat (List.length (w_files w)) ->
   exists r, f_check T w f target = Val r.
 Proof.
-  intros I (NF & FK) TU Lf. pose proof (H12_PanicFree T tab_el tab_at tab_en w I) as [C U CU]. pose proof I as (CO & _).
+  intros I (NF & FK) Lf. pose proof (H12_PanicFree T tab_el tab_at tab_en w I) as [C U CU]. pose proof I as (CO & _).
   destruct (nth_opt_lt' (w_files w) (N.to_nat f)) as (fl & Hfl); [lia|].
   destruct (FK _ _ Hfl) as (Lm & _).
   destruct (nth_opt_lt' (w_models w) (N.to_nat (f_model fl))) as (m & Hm); [lia|].
@@ -133,21 +114,20 @@ Proof.
   { unfold roots. rewrite nth_error_map. rewrite Bytes.nth_opt_nth_error in Hm. rewrite Hm. reflexivity. }
   destruct (c_roots w CO _ _ Hr) as (rn & Hrn & Hp).
   assert (Lr : m_root m < w_next w) by (apply (cl_alloc _ _ _ _ C); rewrite Hrn; discriminate).
-  apply (e_check_ok w f target I TU (fuel_of w) (m_root m) rn (hb_fuel T tab_el tab_en w (m_root m) C U CU Lr) Hrn).
-  unfold reached. rewrite Hp. exact Logic.I.
+  exact (e_check_ok w f target I (fuel_of w) (m_root m) rn (hb_fuel T tab_el tab_en w (m_root m) C U CU Lr) Hrn).
 Qed.
 
-Theorem np_f_check_version_compatibility w f target : H12 w -> FI w -> TypedU T w -> f < N.of_nat (List.length (w_files w)) ->
+Theorem np_f_check_version_compatibility w f target : H12 w -> FI w -> f < N.of_nat (List.length (w_files w)) ->
   runs (f_check_version_compatibility T f target) w.
 Proof.
-  intros I F TU Lf. destruct (np_f_check w f target I F TU Lf) as (r & E).
+  intros I F Lf. destruct (np_f_check w f target I F Lf) as (r & E).
   unfold runs, f_check_version_compatibility. rewrite E. eauto.
 Qed.
 
-Theorem np_f_set_version w f target : H12 w -> FI w -> TypedU T w -> f < N.of_nat (List.length (w_files w)) ->
+Theorem np_f_set_version w f target : H12 w -> FI w -> f < N.of_nat (List.length (w_files w)) ->
   runs (f_set_version T f target) w.
 Proof.
-  intros I F TU Lf. destruct (np_f_check w f target I F TU Lf) as ((errs & mask) & E).
+  intros I F Lf. destruct (np_f_check w f target I F Lf) as ((errs & mask) & E).
   unfold f_set_version. eapply runs_bind; [unfold f_check_version_compatibility; rewrite E; reflexivity|]. intros a [= <-].
   destruct (is_empty errs); [|apply runs_fail].
   destruct (nth_opt_lt' (w_files w) (N.to_nat f)) as (fl & Hfl); [lia|].
